@@ -371,10 +371,10 @@ func isLookupOf(v ssa.Value, key ssa.Value) bool {
 
 func ruleC02R3(c *Ctx) {
 	fn := c.P.Fn(aSendChunk)
-	sends := sitesWhere(fn, func(s ssa.CallInstruction) bool { return invokeOf(s, iConn, "SendChunk") })
+	sends := c.sitesWhereR(fn, func(s ssa.CallInstruction) bool { return invokeOf(s, iConn, "SendChunk") })
 	var sel *ssa.Select
 	selIdx := -1
-	eachInstr(fn, func(in ssa.Instruction) {
+	c.eachInstrR(fn, func(in ssa.Instruction) {
 		if s, ok := in.(*ssa.Select); ok {
 			for i, st := range s.States {
 				if st.Dir == types.SendOnly && fieldOf(st.Chan) == fAckerChan {
@@ -396,17 +396,21 @@ func ruleC02R3(c *Ctx) {
 	if len(sends) != 1 || sel == nil {
 		c.bad("C02.R3", fn, "queue for ACK only after nil-error SendChunk", fn.Pos(), "expected one SendChunk call and one select sending on ackerChan")
 	} else {
-		nilE := nilEdges(sends[0].Value(), true)
-		ok := len(nilE) > 0
+		// sendChunk with its private helpers: the write and the queueing may each stand in a helper; the err == nil edge is
+		// then the edge on the helper's (equivalent) error in sendChunk, and the select is the call of its helper
+		nilE := c.errNilEdgesInRoot(fn, sends[0], 0, true)
+		selIn := c.siteInRoot(fn, sel)
+		ok := len(nilE) > 0 && selIn != nil
 		for b, si := range nilE {
-			if !c.onlyViaEdge(fn, sel, b, si) {
+			if selIn == nil || !c.onlyViaEdge(fn, selIn, b, si) {
 				ok = false
 			}
 		}
 		c.check(ok, "C02.R3", fn, "queue for ACK only after nil-error SendChunk", sel.Pos(),
 			"the select that sends on ackerChan is only reachable through the err == nil edge of conn.SendChunk", "the chunk can be queued for ACK without a successful SendChunk")
 		// the value queued is the chunk that was sent
-		sameChunk := sameValue(sel.States[selIdx].Send, sends[0].Common().Args[0])
+		sameChunk := sameValue(sel.States[selIdx].Send, sends[0].Common().Args[0]) ||
+			(c.resolveR(fn, sel.States[selIdx].Send) == c.resolveR(fn, sends[0].Common().Args[0]) && c.resolveR(fn, sel.States[selIdx].Send) != nil)
 		c.check(sameChunk, "C02.R3", fn, "the queued chunk is the sent chunk", sel.Pos(), "same value sent on the connection and queued for ACK", "the chunk queued for ACK is not the chunk passed to SendChunk")
 	}
 	// acknowledger: received chunk enters the pending map before the ACK read and before any return
@@ -554,7 +558,7 @@ func ruleC02R4(c *Ctx) {
 	fn := c.P.Fn(aSendChunk)
 	var sel *ssa.Select
 	idx := -1
-	eachInstr(fn, func(in ssa.Instruction) {
+	c.eachInstrR(fn, func(in ssa.Instruction) {
 		if s, ok := in.(*ssa.Select); ok {
 			for i, st := range s.States {
 				if st.Dir == types.SendOnly && fieldOf(st.Chan) == fAckerChan {
@@ -569,17 +573,33 @@ func ruleC02R4(c *Ctx) {
 	}
 	cb := selectCaseBlock(sel, idx)
 	nTrue := 0
-	for _, rv := range returnedValues(fn, 0) {
-		in := rv.At
-		k, isK := rv.Val.(*ssa.Const)
-		if isK && k.Value != nil && k.Value.Kind() == constant.Bool && !constant.BoolVal(k.Value) {
-			continue // returns false
+	// a non-false first result comes from the case that queued the chunk — in sendChunk itself or in the private helper
+	// that holds the select, whose result sendChunk returns
+	var judge func(f *ssa.Function, depth int)
+	judge = func(f *ssa.Function, depth int) {
+		for _, rv := range returnedValues(f, 0) {
+			in := rv.At
+			k, isK := rv.Val.(*ssa.Const)
+			if isK && k.Value != nil && k.Value.Kind() == constant.Bool && !constant.BoolVal(k.Value) {
+				continue // returns false
+			}
+			v := strip(rv.Val)
+			if ex, ok := v.(*ssa.Extract); ok && ex.Index == 0 {
+				v = ex.Tuple
+			}
+			if cl, ok := v.(*ssa.Call); ok && depth < 3 {
+				if g := cl.Common().StaticCallee(); g != nil && c.helpersOf(fn)[g] {
+					judge(g, depth+1)
+					continue
+				}
+			}
+			nTrue++
+			c.check(f == sel.Parent() && c.onlyViaBlock(f, in, cb), "C02.R4", f, "sendChunk reports success only when queued", in.Pos(),
+				"the non-false return is only reachable through the case that sent the chunk on ackerChan",
+				"sendChunk can report success without having queued the chunk for ACK")
 		}
-		nTrue++
-		c.check(c.onlyViaBlock(fn, in, cb), "C02.R4", fn, "sendChunk reports success only when queued", in.Pos(),
-			"the non-false return is only reachable through the case that sent the chunk on ackerChan",
-			"sendChunk can report success without having queued the chunk for ACK")
 	}
+	judge(fn, 0)
 	c.floor("C02.R4", "success returns of sendChunk", nTrue, 1)
 }
 
@@ -683,7 +703,7 @@ func ruleC02R5(c *Ctx) {
 		c.count("C02.R5:merged sources", len(srcs))
 		has := func(pred func(ssa.Value) bool) bool {
 			for _, s := range srcs {
-				if mentions(s, pred) {
+				if c.mentionsR(fn, s, pred, 0) { // also through the result of a private helper of collectLeftovers
 					return true
 				}
 			}
@@ -962,16 +982,17 @@ func ruleC02R7(c *Ctx) {
 		}
 	}
 	c.floor("C02.R7", "onChunkLeft call sites", n, 1)
-	left := sitesWhere(fn, func(s ssa.CallInstruction) bool { return fieldCallOf(s, fLeft) })
+	left := c.sitesWhereR(fn, func(s ssa.CallInstruction) bool { return fieldCallOf(s, fLeft) })
 	if len(left) != 1 {
-		c.bad("C02.R7", fn, "final leftover loop", fn.Pos(), "expected exactly one onChunkLeft call in run")
+		c.bad("C02.R7", fn, "final leftover loop", fn.Pos(), "expected exactly one onChunkLeft call in run (or its private helpers)")
 		return
 	}
-	lp := loopOf(fn, left[0].Block())
+	loopFn := left[0].Parent() // run itself, or the private helper that drains the leftovers
+	lp := loopOf(loopFn, left[0].Block())
 	// receive in that loop from the leftovers variable
 	var recv ssa.Instruction
 	if lp != nil {
-		for _, op := range chanOps(fn) {
+		for _, op := range chanOps(loopFn) {
 			if (op.Kind == "recv" || op.Kind == "range") && lp.blocks[op.In.Block()] {
 				recv = op.In
 			}
@@ -998,7 +1019,7 @@ func ruleC02R7(c *Ctx) {
 	}
 	// close(leftovers) of the same variable precedes the loop
 	var closes []ssa.Instruction
-	for _, op := range chanOps(fn) {
+	for _, op := range chanOps(loopFn) {
 		if op.Kind == "close" && sameCell(op.Chan, recvCh) {
 			closes = append(closes, op.In)
 		}
@@ -1006,7 +1027,8 @@ func ruleC02R7(c *Ctx) {
 	c.checkOrder("C02.R7", fn, "close(leftovers)", instrSet(closes), "final leftover loop", map[ssa.Instruction]bool{recv: true})
 	sLoop := siteSumm(c.P, func(s ssa.CallInstruction) bool { return false })
 	_ = sLoop
-	qr := &PathQ{P: c.P, Barrier: func(in ssa.Instruction) bool { return in == recv }}
+	qr := c.pq(fn)
+	qr.Barrier = func(in ssa.Instruction) bool { return in == recv }
 	hit2, tr2 := qr.Reach(entryOf(fn), isReturn)
 	c.check(hit2 == nil, "C02.R7", fn, "run cannot return without the final leftover loop", fn.Pos(), "every path to return passes the final receive loop", "run can return without draining the final leftovers: "+c.P.trailString(tr2))
 	// the channel drained is what the last runSession returned: followed through local cells, phis and helper functions
